@@ -4,7 +4,7 @@ import itertools
 ID = "C04"
 TITLE = "Persistent collections are immutable values that behave like their model"
 CORR = "Verif.C04.Corr"
-CORR_TARGETS = ["theories/C04/Corr.vo"]
+CORR_TARGETS = ["theories/Common/Corr.vo", "theories/C04/Corr.vo"]
 TARGETS = ["theories/Properties/C04.vo"]
 PROPERTIES_FILE = "theories/Properties/C04.v"
 IMPL = "harness.props.c04_impl"
@@ -20,7 +20,7 @@ RULE = ("a case is one branching history over vectors, lists, queues, maps, sets
         "to the latest value or to the first one, over the keys 1 / 1.0 / an object whose hash "
         "collides with 1 (each followed by a battery of reads) + a seeded sample of 600 sequences "
         "of length 3 + 1000 random histories of length <= 25 + 20 on collections of 33..73 elements; "
-        "thorough: all sequences of length <= 3, 30000 of length 4, 20000 random, 3000 of length "
+        "thorough: all sequences of length <= 3, 30000 sampled of length 4-5, 20000 random, 3000 of length "
         "<= 60 on collections of 33..73 elements (pyrsistent's 32-wide nodes and the vector tail "
         "are crossed). Every result is observed when produced and re-read after the whole history; "
         "transients are read through persistent! at the end. A case is non-trivial when at least "
@@ -485,40 +485,61 @@ COLL_RESULT = {"new", "newmap", "conj", "assoc", "dissoc", "disj", "pop", "into"
                "merge", "persistent", "nil"}
 
 
-def exhaustive(kind, length, root_actions=True):
-    acts = mutators(kind)
-    # each action may address the latest collection value or the first one (branching)
+def _alphabet(kind, root_actions):
     alphabet = []
-    for tag, f in acts:
+    for tag, f in mutators(kind):
         if tag == "c":
             alphabet.append((tag, f, "last"))
             if root_actions:
                 alphabet.append((tag, f, "root"))
         else:
             alphabet.append((tag, f, None))
+    return alphabet
+
+
+def _instantiate(kind, start, seq):
+    """a sequence of abstract actions as a history; None when a transient action comes before
+    any transient exists"""
+    ops = [start]
+    last, tr = 0, None
+    for tag, f, who in seq:
+        if tag == "t":
+            if tr is None:
+                return None
+            op = f(tr)
+        else:
+            t = last if who == "last" else 0
+            op = f(t, 0 if who == "last" else last)
+        ops.append(op)
+        pos = len(ops) - 1
+        if op[0] == "transient":
+            tr = pos
+        elif op[0] in COLL_RESULT:
+            last = pos
+    return {"ops": ops + battery(kind, last, 0)}
+
+
+def exhaustive(kind, length, root_actions=True, exact=False):
+    """every sequence of at most (exactly) `length` mutators; each mutator of a collection may
+    address the latest collection value or the first one (branching)"""
+    alphabet = _alphabet(kind, root_actions)
     for start in STARTS[kind]:
-        for n in range(0, length + 1):
+        for n in range(length if exact else 0, length + 1):
             for seq in itertools.product(alphabet, repeat=n):
-                ops = [start]
-                last, tr, ok = 0, None, True
-                for tag, f, who in seq:
-                    if tag == "t":
-                        if tr is None:
-                            ok = False
-                            break
-                        op = f(tr)
-                    else:
-                        t = last if who == "last" else 0
-                        op = f(t, 0 if who == "last" else last)
-                    ops.append(op)
-                    pos = len(ops) - 1
-                    if op[0] == "transient":
-                        tr = pos
-                    elif op[0] in COLL_RESULT:
-                        last = pos
-                if not ok:
-                    continue
-                yield {"ops": ops + battery(kind, last, 0)}
+                c = _instantiate(kind, start, seq)
+                if c is not None:
+                    yield c
+
+
+def sampled_sequences(rng, length, n):
+    out = 0
+    while out < n:
+        kind = rng.choice("VVLQMMS")
+        alphabet = _alphabet(kind, True)
+        c = _instantiate(kind, rng.choice(STARTS[kind]), [rng.choice(alphabet) for _ in range(length)])
+        if c is not None:
+            out += 1
+            yield c
 
 
 def rand_elem(rng, pool):
@@ -630,14 +651,12 @@ def cases(tier, rng):
         yield from exhaustive(kind, 2, root_actions=True)
     if quick:
         # length 3: a seeded sample (the thorough tier enumerates them all)
-        longer = [c for kind in "VLQMS" for c in exhaustive(kind, 3, root_actions=False)
-                  if len(c["ops"]) > 3 + len(battery(kind, 0, 0))]
-        yield from rng.sample(longer, 600)
+        yield from sampled_sequences(rng, 3, 600)
     else:
         for kind in "VLQMS":
-            yield from (c for c in exhaustive(kind, 3, root_actions=True))
-        longer = [c for kind in "VLQMS" for c in exhaustive(kind, 4, root_actions=False)]
-        yield from rng.sample(longer, 30000)
+            yield from exhaustive(kind, 3, root_actions=True, exact=True)
+        yield from sampled_sequences(rng, 4, 20000)
+        yield from sampled_sequences(rng, 5, 10000)
     for _ in range(1000 if quick else 20000):
         yield random_history(rng, rng.randint(4, 25))
     for _ in range(20 if quick else 3000):
